@@ -228,7 +228,7 @@ def install_guards(cx):
     mt = [l for l in lits if l[0] == "is" and l[2] is True and (lambda r: r is not None and is_f(r[1], "SnapshotMetadata.index"))(term_is(cx.prog, l))]
     cx.check(bool(pend0) and bool(mt), "matching:atoms", "the matching-snapshot test (no pending request and log.term(snap.index) == snap.term) exists")
     if pend0 and mt:
-        blocks = g.reach([pend0[0], mt[0]])
+        blocks = g.reach([pend0[0], mt[0]], presuppose=True)   # one evaluation of term(snap.index): no loop in the install function re-reads it
         destructive = call_blocks(f, "RaftLog::restore") | call_blocks(f, "ProgressTracker::clear") | call_blocks(f, "confchange::restore::restore")
         cx.check(not (blocks & destructive), "matching:no-discard", "an already-matching unrequested snapshot reaches neither RaftLog::restore nor a reset of the progress tracker")
         cm = call_blocks(f, "RaftLog::commit_to")
